@@ -42,6 +42,21 @@ CHECKS = {
             "Real ECCEncoder -> XOR flip mask -> real ECCDecoder in the simulator, one settle per vector. k = 1..8 (thorough 1..12): every data word x every single and double flip position incl. the overall parity bit, plus the disabled pass-through. k in 9..128 (quick: 15 widths around the check-bit boundaries; thorough: all): zero/all-ones/generated words x all single flips x generated double flips (always incl. parity-bit and adjacent pairs), and a check that flags/correction depend on the flip pattern only and that the encoder is linear, which justifies reading sampled words as representative.",
             "Trusted: Migen's simulator; textbook Hamming layout for the disabled pass-through oracle. Flags while disabled are unspecified and not asserted.",
             "DESIGN.md section 4 / C18"),
+    "C06": ("exploration",
+            "property-based testing (Hypothesis) + exhaustive 2x2 enumeration: per-cycle routing/ownership invariants evaluated from port traces (requests tagged per master) and a per-slave memory scoreboard",
+            "Generated topologies (Arbiter, Decoder, InterconnectShared, Crossbar, point-to-point; 1..3 x 1..3), disjoint maps decoded by the real SoCRegion.decoder, registered/unregistered decode, per-master request programs (mapped and hole addresses, gaps, held cyc, simultaneous starts, aborts) and per-slave ack schedules (0-latency capable). From the per-cycle traces: at most one slave sees cyc on a shared bus, a slave-side request equals exactly one master's request inside that slave's window, holes reach nobody, a bound master keeps the port while it holds cyc, ack/err/dat_r reach only the bound master, exactly one termination per request, per-(master,slave) ack counts agree, round-robin fairness bound, scoreboard. 2x2 shared/crossbar: all start offsets (0..5)^2 x held cyc x targets x registered x 3 latencies exhaustively.",
+            "Trusted: Migen's simulator, harness agents. Registered decode: slave latency >= 1. No timeout (C11).",
+            "DESIGN.md section 4 / C06"),
+    "C12": ("exploration",
+            "property-based testing (Hypothesis): cycle-accurate reference register file (written from the docstrings) compared in every cycle with the real CSRBank over generated register sets and bus/device histories",
+            "Generated register sets (raw CSRs, storages with/without atomic write and device write, statuses incl. writable, fields with offsets/gaps/pulse/reset, 1..>2 bus words), bus width 8/32, big/little ordering, bank address, paging; histories of bus writes/reads (this bank, other bank, beyond the last register, aliases of the word index), full accessor sequences, idle cycles and device-side updates. The model predicts dat_r, every storage, every re/we strobe, every field value in every cycle; any difference is a violation.",
+            "Trusted: Migen's simulator; the model. Device and bus write to one register never coincide (unspecified). Known finding (atomic_write + little ordering) excluded by construction and replayed. csr_bus.SRAM windows and CSRBankArray are exercised by C14, not here.",
+            "DESIGN.md section 4 / C12"),
+    "C15": ("exploration",
+            "property-based testing (Hypothesis) + exhaustive alignment sweep: cycle-accurate pending/irq model vs the real EventManager behind a real CSRBank",
+            "Generated managers (1..12 sources of kinds pulse / rising / falling / level; 8- and 32-bit CSR bus so that sources span words; 1..3 managers under SharedIRQ), per-cycle trigger waveforms and programs of complete accessor writes to pending/enable and reads of all three registers. Model: irq = OR(pending & enable) each cycle, set has priority over clear, clear only for written ones, level mirrors, status raw. Compared in every cycle (pending, status, enable, irq, shared irq) and on every bus read. Exhaustive: every kind x bus width x all (trigger start, clear-write cycle, pulse width) alignments in [2,10) x [1,12) x {1,2,3}.",
+            "Trusted: Migen's simulator; CSR bank semantics (C12). Multi-word pending writes use the full accessor sequence (documented r/re semantics).",
+            "DESIGN.md section 4 / C15"),
 }
 
 NOT_YET = {}
